@@ -140,6 +140,8 @@ def run(ctx):
             v["clause"], v["at"], json.dumps(p, sort_keys=True)),
             {"plan": p, "version": inf["version"], "events": t["ev"], "verdict": v})
     res.add_validation(stats, accepted)
+    from .. import manager_phase
+    manager_phase.run_phase(ctx, res, "C11")
     res.coverage["histories_with_link_error"] = owed_seen
     res.coverage["histories_with_completed_repair"] = repaired_seen
     res.coverage["model_drift"] = drift
